@@ -9,7 +9,7 @@ from vp.ref import xgeom as X
 
 ID = 'C11'
 RULE = ("all 16 ordered type pairs from {Line, Quadratic, Cubic, Arc (circular/elliptic, rotated or not, both sweeps)} in "
-        "configurations: constructed crossing (both curves forced through a common point), tangency (tangent line / mirror "
+        "configurations: constructed crossing (both curves forced through a common point), a line ending on / a hair short of / a hair beyond the other curve, a curve starting exactly on an axis-parallel line, tangency (tangent line / mirror "
         "image), near-miss (tangent configuration shifted by a gap 1e-9..1e-2 of the size, both ways), disjoint, random; "
         "scales 1e-2, 1, 1e3; and pairs of paths of 1-3 such segments. Oracle: validity predicate on every returned pair "
         "(range, coincidence within 1e-5 / 1e-3 of the size), operand-swap agreement after clustering at 1e-4, "
@@ -19,13 +19,15 @@ ASSUMPTIONS = ["inputs the docstrings exclude are not generated (identical segme
                "an exception is tolerated (counted) for general arc-arc pairs; for other pairs only TypeError/AttributeError/"
                "IndexError/NameError count as violations, any other exception is 'no output' (the property speaks about returned pairs)"]
 CONFIGS = ['scipy']
-BUDGET = {'quick': 1500, 'thorough': 60000}
+BUDGET = {'quick': 1200, 'thorough': 60000}
 REQUIRED = ['pair:LL', 'pair:LQ', 'pair:QC', 'pair:CC', 'pair:AL', 'pair:LA', 'pair:AC', 'pair:AA', 'cfg:crossing', 'cfg:tangent',
-            'cfg:nearmiss', 'cfg:disjoint', 'cfg:random', 'paths', 'returned_pairs']
-CASE_TIMEOUT = 12
+            'cfg:nearmiss', 'cfg:disjoint', 'cfg:random', 'cfg:endtouch', 'cfg:tjunction', 'paths', 'returned_pairs']
+CASE_TIMEOUT = 8
 TIME_LIMIT = {'quick': 250, 'thorough': 3300}
 
 KINDS = 'LQCA'
+import os
+STRICT_ENDPOINTS = not os.environ.get('C11_RELAX_ENDPOINTS')
 
 
 @st.composite
@@ -56,7 +58,7 @@ def pair_case(draw, kinds=None, cfgs=None):
     k2 = draw(st.sampled_from(kinds or KINDS))
     if k1 == 'A' and k2 == 'A' and draw(st.booleans()):
         k2 = draw(st.sampled_from('LQC'))   # arc-arc pairs run the subdivision solver on arcs (slow): keep them rarer
-    cfg = draw(st.sampled_from(cfgs or ['crossing', 'crossing', 'crossing', 'tangent', 'nearmiss', 'disjoint', 'random']))
+    cfg = draw(st.sampled_from(cfgs or ['crossing', 'crossing', 'crossing', 'tangent', 'nearmiss', 'disjoint', 'random', 'endtouch', 'tjunction']))
     if cfg in ('tangent', 'nearmiss') and k1 in 'QCA' and k2 in 'QCA' and draw(st.integers(0, 11)) != 0:
         # tangential curved pairs cost seconds each in the subdivision solver: keep them, but rarer
         cfg = 'crossing'
@@ -79,6 +81,24 @@ def pair_case(draw, kinds=None, cfgs=None):
         if cfg == 'nearmiss':
             gap = draw(st.sampled_from([1e-9, 1e-7, 1e-5, 1e-3, 1e-2])) * sc * draw(st.sampled_from([1, -1]))
             s2 = X.shift_spec(s2, 1j * d * gap)
+    elif cfg == 'endtouch':
+        # a line that ends at the crossing point, a hair before it or a hair beyond it
+        ang = draw(gen.floats_in(0.0, 6.283))
+        d = complex(math.cos(ang), math.sin(ang))
+        L = draw(gen.floats_in(0.5, 3.0)) * sc
+        gap = draw(st.sampled_from([0.0, 1e-9, 1e-7, 5e-7, 1e-5, -1e-9, -1e-7, -5e-7, -1e-5])) * draw(st.sampled_from([1.0, sc]))
+        A0, B0 = P - L * d, P + gap * d
+        if draw(st.booleans()):
+            A0, B0 = B0, A0
+        s2 = ['L', [A0.real, A0.imag], [B0.real, B0.imag]]
+    elif cfg == 'tjunction':
+        # curve 1 starts exactly on an axis-parallel line (contact at an extreme of both control boxes)
+        p0 = X.C(s1[1])
+        half = draw(gen.floats_in(0.5, 3.0)) * sc
+        if draw(st.booleans()):
+            s2 = ['L', [p0.real - half, p0.imag], [p0.real + half * draw(st.sampled_from([1.0, 0.0])), p0.imag]]
+        else:
+            s2 = ['L', [p0.real, p0.imag - half], [p0.real, p0.imag + half * draw(st.sampled_from([1.0, 0.0]))]]
     elif cfg == 'random':
         s2 = draw(curve_through(k2, P + complex(draw(gen.coord(sc)), draw(gen.coord(sc))) * 0.3, u2, sc))
     else:
@@ -193,6 +213,8 @@ def check_pair(case, ctx):
         # crossings at an end point of either curve are excluded: closed-interval root tests cannot decide them
         # under rounding (counted)
         def interior(p):
+            if STRICT_ENDPOINTS:
+                return True
             return 1e-3 < p[0] < 1 - 1e-3 and 1e-3 < p[1] < 1 - 1e-3
         allA = [(float(p[0]), float(p[1])) for p in r12]
         allB = [(float(p[1]), float(p[0])) for p in r21]
@@ -239,7 +261,16 @@ def check_paths(case, ctx):
         ctx.count('returned_pairs')
         ctx.check(0 <= T1 <= 1 and 0 <= T2 <= 1 and 0 <= t1 <= 1 and 0 <= t2 <= 1, 'path/out_of_range', 'Path.intersect returned %r' % (item,))
         ctx.check(any(seg1 is s for s in p1) and any(seg2 is s for s in p2), 'path/segment_not_member', 'returned segments are not members of the paths')
-        pts = [complex(p1.point(T1)), complex(seg1.point(t1)), complex(seg2.point(t2)), complex(p2.point(T2))]
+        pts = [complex(seg1.point(t1)), complex(seg2.point(t2))]
+        # at a discontinuous joint the path parameter T names two points (C05 accepts either neighbour there), so
+        # path.point(T) is compared only away from such joints
+        for pth, seg, T, t in ((p1, seg1, T1, t1), (p2, seg2, T2, t2)):
+            k = [i for i, sg in enumerate(pth) if sg is seg][0]
+            at_break = (t <= 1e-9 and k > 0 and pth[k - 1].end != seg.start) or (t >= 1 - 1e-9 and k < len(pth) - 1 and pth[k + 1].start != seg.end)
+            if at_break:
+                ctx.count('path_T_at_discontinuous_joint')
+            else:
+                pts.append(complex(pth.point(T)))
         d = max(abs(x - y) for x in pts for y in pts)
         ctx.check(d <= tol, 'path/points_differ', 'Path.intersect tuple %r: the four points are %.3g apart (allowed %.3g): %r' % (item, d, tol, pts))
         # T and (seg, t) name the same location
